@@ -132,6 +132,16 @@ CHECKS["C20"] = (
     "single-setting programs (7x7 pairs x {normal, exception inside, exception between exits}) are enumerated.",
     "Settings values are never None (not expressible through a context).", "§5 C20")
 
+CHECKS["C19"] = (
+    "Hypothesis-generated base engines x exhaustive enumeration of all subsets of removable operators: is_ready vs process() and vs a structural definition of 'needed'",
+    "For every generated valid base engine (rules with and/or/both/neither, integral and weighted defuzzifiers, one or "
+    "two blocks and outputs, disabled components, all activation methods) every subset of {conjunction, disjunction, "
+    "implication per block; aggregation, defuzzifier per output} is removed: if is_ready reports no errors, processing "
+    "finite rows must not raise; every removed component that the loaded rules / output variables need must be named "
+    "in the errors.",
+    "All subsets are enumerated for bases with <= 8 removable components; two-block bases use all subsets of size <= 2, "
+    "their complements and 64 generated subsets.", "§5 C19")
+
 NOT_APPLICABLE = {}
 
 
